@@ -68,7 +68,7 @@ func (fr *frame) sliceOp(st *PState, ins *ssa.Slice) Val {
 		name, h, _ := st.sliceHeap(arr.Elem())
 		st.heaps[name] = st.Name(name, Store(h, base, content))
 		// NOTE: the slice aliases the array in Go; here it is a copy (arrays sliced in the verified code are varargs temporaries).
-		return WithGo(App(SSlice, "mkSlice", base, lo, App(SInt, "-", hi, lo), App(SInt, "-", n, lo)), ins.Type())
+		return WithGo(App(SSlice, "mkSlice", base, lo, ISub(hi, lo), ISub(n, lo)), ins.Type())
 	case *types.Slice, *types.Basic:
 		x := ex.reify(st, xv, ins.X.Type())
 		if x.Sort == SBytes {
@@ -92,7 +92,7 @@ func (fr *frame) sliceOp(st *PState, ins *ssa.Slice) Val {
 			hi = App(SInt, "slen", x)
 		}
 		fr.panicUnless(st, And(App(SBool, "<=", IntLit(0), lo), App(SBool, "<=", lo, hi), App(SBool, "<=", hi, App(SInt, "scap", x))), "slice bounds out of range")
-		return WithGo(App(SSlice, "mkSlice", App(SInt, "sbase", x), App(SInt, "+", App(SInt, "soff", x), lo), App(SInt, "-", hi, lo), App(SInt, "-", App(SInt, "scap", x), lo)), ins.Type())
+		return WithGo(App(SSlice, "mkSlice", App(SInt, "sbase", x), IAdd(App(SInt, "soff", x), lo), ISub(hi, lo), ISub(App(SInt, "scap", x), lo)), ins.Type())
 	}
 	bail("slice of %s", ins.X.Type())
 	return nil
@@ -145,11 +145,11 @@ func (fr *frame) appendOp(st *PState, c *ssa.CallCommon) Val {
 
 func constSliceLen(t T) (int, bool) {
 	// matches (mkSlice <base> <off> N <cap>) with literal N
-	var base, off, ln, cp string
-	if _, err := fmt.Sscanf(t.S, "(mkSlice %s %s %s %s", &base, &off, &ln, &cp); err != nil {
+	sx, err := parseSexprs(t.S)
+	if err != nil || len(sx) != 1 || len(sx[0].list) != 5 || sx[0].list[0].atom != "mkSlice" {
 		return 0, false
 	}
-	n, err := strconv.Atoi(ln)
+	n, err := strconv.Atoi(sx[0].list[3].atom)
 	if err != nil {
 		return 0, false
 	}
